@@ -105,6 +105,8 @@ def check_property(pid, tier, seed):
         cov['coqchk'] = out.strip().split('\n')[-12:]
         if rc != 0:
             proof_problem = 'coqchk failed: ' + out[-800:]
+        elif 'Axioms: <none>' not in out:
+            proof_problem = 'coqchk reports axioms: ' + ' '.join(out.strip().split('\n')[-12:])[:600]
     # ---- 2. correspondence + monitors -----------------------------------------------------
     rng = random.Random(seed)
     cases = prop.generate(tier, rng)          # list of case lines; ids must be unique
@@ -117,10 +119,26 @@ def check_property(pid, tier, seed):
         if tier == 'thorough' and prop.debug_build_too:
             with build.lock():
                 dbg = build.harness_build('debug')
-            _, impl_dbg = runner.run_impl(dbg, cases, workdir, 'cases_dbg')
-            for cid, t in impl.items():
-                if impl_dbg.get(cid) != t:
-                    mismatches.append((cid, 'debug-vs-release', t, impl_dbg.get(cid)))
+            # the debug build (overflow checks, debug_assert!) gets its own full correspondence run: traces of the two
+            # builds are not compared with each other (client handshake keys are random per run)
+            mlines_dbg, impl_dbg = runner.run_impl(dbg, cases, workdir, 'cases_dbg')
+            model_dbg = runner.run_model(mlines_dbg)
+            for line in cases:
+                cid = line.split(' ')[1]
+                kind = line.split(' ')[0]
+                if kind in getattr(prop, 'impl_only_kinds', ()) or kind in getattr(prop, 'model_only_kinds', ()):
+                    continue
+                itd = impl_dbg.get(cid)
+                if itd is None or itd.startswith('bad-case'):
+                    continue
+                itd_c = itd.split(' ## ')[0]
+                mtd = model_dbg.get(cid)
+                if mtd is None or prop.project(line, itd_c) != prop.project(line, mtd):
+                    mismatches.append((cid, 'correspondence (debug build)', itd_c, mtd))
+                vd = prop.monitor(line, itd, line)
+                if vd:
+                    monitor_hits.append((cid, vd + ' [debug build]', itd_c))
+            cov['debug_build_cases'] = len(impl_dbg)
     except build.BuildError as e:
         print('RUN FAILURE: %s\n%s' % (e.what, e.output))
         path = write_replay(pid, {'property': pid, 'kind': 'run-failure', 'what': e.what, 'output': e.output})
@@ -139,6 +157,21 @@ def check_property(pid, tier, seed):
     except build.BuildError as e:
         cov['kernel_crosscheck'] = {'error': e.what}
         mismatches.append(('-', 'extraction-vs-kernel: ' + e.what, None, e.output[-500:]))
+    # supporting runtime tests on the build WITHOUT the hook (real random masks / keys)
+    if hasattr(prop, 'nohook_cases'):
+        try:
+            with build.lock():
+                nh = build.harness_build_nohook()
+            nh_cases = prop.nohook_cases(tier)
+            _, nh_tr = runner.run_impl(nh, nh_cases, workdir, 'cases_nohook')
+            cov['support_tests_hook_off'] = {c.split(' ')[1]: nh_tr.get(c.split(' ')[1]) for c in nh_cases}
+            for c in nh_cases:
+                v = prop.nohook_monitor(c, nh_tr.get(c.split(' ')[1], ''))
+                if v:
+                    monitor_hits.append((c.split(' ')[1], v, nh_tr.get(c.split(' ')[1], '')))
+                    cases.append(c)
+        except build.BuildError as e:
+            mismatches.append(('-', 'hook-off build: ' + e.what, None, e.output[-500:]))
     case_by_id = {}
     for line in cases:
         f = line.split(' ')
@@ -150,6 +183,8 @@ def check_property(pid, tier, seed):
     for cid, line in case_by_id.items():
         it = impl.get(cid); mt = model.get(cid)
         kind = line.split(' ')[0]
+        if kind in ('KS', 'KR'):
+            continue          # hook-off support cases: already judged above
         if kind in getattr(prop, 'impl_only_kinds', ()):
             v = prop.monitor(line, it or '', mline_by_id.get(cid, line))
             if v: monitor_hits.append((cid, v, it))
@@ -273,6 +308,8 @@ def main(argv):
         print(__doc__); return 2
     if argv[0] == 'setup':
         build.ensure_all('release')
+        with build.lock():
+            build.harness_build_nohook()
         return 0
     if argv[0] == 'replay':
         return replay(argv[1])
